@@ -596,6 +596,14 @@ def run(R):
         W = {'stack': describe(items)}
         one_stack(R, B, vm, items, W)
         R.case(mon.fp(repr(W)), sample=W if i < 2 else None)
+    # integers around every power of two of the 257-bit range (the 64-bit / 257-bit form choice sits at 2^63; the range ends at -2^256 and 2^256 - 1)
+    if R.shard == 0:
+        vals = sorted({s_ * ((1 << k) + d) for k in range(0, 257) for d in (-1, 0, 1) for s_ in (1, -1) if -(1 << 256) <= s_ * ((1 << k) + d) < (1 << 256)})
+        for i in range(0, len(vals), 25):
+            chunk = vals[i:i + 25]
+            one_stack(R, B, vm, chunk, {'stack': 'integers around powers of two', 'first': str(chunk[0]), 'last': str(chunk[-1])})
+            R.case(mon.fp('pow2', i))
+            R.count('power_of_two_integers', len(chunk))
     R.floor('double_serialisations', 50)
     R.floor('history_serialisations', 100)
     R.floor('history_ops', 4, 'set')
